@@ -1,6 +1,7 @@
 import Anndb.Proofs.PartitionRefine
 import Anndb.Proofs.HeapLawful
 import Anndb.Model.ListPQ
+import Anndb.Generated
 /-!
 # C02 — A partition is a faithful map id → (vector, metadata) with exact errors
 
@@ -247,6 +248,12 @@ theorem partition_refines_map_goheap (dist : VecRef → VecRef → Score) (cfg :
       cfg dim (fun ids => ids.head?) PState.empty log
     Refines dim impl.1 (Spec.empty.runLog log).1 ∧ impl.2 = (Spec.empty.runLog log).2 :=
   partition_refines_map cfg dim _ ⟨fun _ _ h => List.mem_of_mem_head? h, fun _ h => List.head?_eq_none_iff.mp h⟩ log
+
+/-- the model's `insert` tests existence and stores in one step; in the code that is one critical section
+of the shard's lock in `storeVertex` / `removeVertex` (regenerated). With the test outside the lock
+(seeded C02-F) two simultaneous inserts of one id are both told success and the counters count the id
+twice — engine `conc-dupinsert` is the failing input for that. -/
+theorem existence_test_and_store_are_one_step : Generated.indexStoreRemoveAtomic = true := by decide
 
 /-- a concrete log with re-insert, update-with-merge and a batch with a duplicate id -/
 example : (Spec.empty.runLog
